@@ -603,11 +603,11 @@ func (ll *LocationList) Len() int {
 
 // Slice returns the slice representation of the list.
 func (ll *LocationList) Slice() []Location {
-	list := []Location{ll.Data}
-	if ll.Next == nil {
-		return list
+	list := []Location{}
+	for ; ll != nil; ll = ll.Next {
+		list = append(list, ll.Data)
 	}
-	return append(list, ll.Next.Slice()...)
+	return list
 }
 
 // Push a Location object to the end of the list. If the Location object is
@@ -716,8 +716,13 @@ func Join(locs ...Location) Location {
 	// back its own string representation gives.
 	for n := -1; ; {
 		list := LocationList{}
+		tail := &list
 		for _, loc := range locs {
-			list.Push(loc, true)
+			// Push walks to the end of the list: start it there.
+			for tail.Next != nil {
+				tail = tail.Next
+			}
+			tail.Push(loc, true)
 		}
 
 		switch m := list.Len(); {
